@@ -24,7 +24,7 @@ func init() {
 }
 
 var c14ISNs = []uint32{0, 1, 0x7fffffff, 0x80000000, 0xfffffffe, 0xffffffff}
-var c14Decoded = []int{23, 80, 443, 445, 1433, 6379, 9200}
+var c14Decoded = []int{23, 80, 443, 139, 445, 1433, 6379, 9200}
 
 type c14Peer struct {
 	IP    string `json:"ip"`
@@ -85,6 +85,10 @@ func genC14(seed uint64, idx int, tier string) *Scenario {
 		data := []byte(r.word(total, total))
 		if p.DPort == 80 || p.DPort == 9200 {
 			data = []byte(fmt.Sprintf("GET /p%d HTTP/1.1\r\nHost: h%d\r\nUser-Agent: %s\r\n\r\n", i, i, r.word(0, 30)))
+			total = len(data)
+		} else if shaped := rawDecoderPayload(r, p.DPort); shaped != nil && r.Chance(0.7) {
+			// what the port's decoder looks for: a TLS record with a ClientHello, an SMB1/SMB2 header, ... (also cut short)
+			data = shaped
 			total = len(data)
 		}
 		cuts := r.distinctSortedOrNil(nseg-1, total)
@@ -505,12 +509,6 @@ func runC14(t *testing.T, sc *Scenario) Result {
 				evs = append(evs, e.M)
 			}
 		}
-		decoded := false
-		for _, d := range c14Decoded {
-			if d == ps.DPort {
-				decoded = true
-			}
-		}
 		// the listener's handler waits 60 s for data; a peer whose first data comes later than that after the
 		// handshake is reported with what had arrived by then (possibly nothing) - not judged for content
 		late := ps.firstPush > 0 && ps.firstPushMs-ps.estMs >= 59000 || ps.firstDataMs-ps.estMs >= 59000 || ps.maxGapMs >= 59000
@@ -524,13 +522,15 @@ func runC14(t *testing.T, sc *Scenario) Result {
 			res.probe("first-data-after-read-timeout", 1)
 		}
 		if len(evs) == 0 {
-			if decoded && ps.DPort != 80 && ps.DPort != 9200 || late && decoded {
-				continue // protocol decoders report only what they can parse
+			if late && (ps.DPort == 80 || ps.DPort == 9200) {
+				continue // the HTTP decoders report only what parses as a request
 			}
 			res.Violate("connection-not-reported", "raw-tcp", fmt.Sprintf("peer %d (%s:%d -> port %d): no event carries the peer's address and port (%d bytes sent, first push at %d; established at %d ms, first data at %d ms, longest silence before a pushed segment %d ms); segments sent (ms:bytes) %v; frames to the peer: %v", i, ps.IP, ps.Port, ps.DPort, ps.sentBytes, ps.firstPush, ps.estMs, ps.firstDataMs, ps.maxGapMs, ps.timeline, ps.frames))
 			return res
 		}
-		if !decoded {
+		// the decoders of 80 and 9200 report what parses as an HTTP request (fields, no payload); every other port -
+		// decoded or not - reports what the first read returned
+		if ps.DPort != 80 && ps.DPort != 9200 {
 			if len(evs) != 1 {
 				res.Violate("connection-reported-twice", "raw-tcp", fmt.Sprintf("peer %d: %d events", i, len(evs)))
 				return res
@@ -609,4 +609,68 @@ func c14Complete(sc *Scenario, i int) bool {
 		return len(ops) >= 3 && ops[0].K == "syn" && ops[1].K == "ack" && ops[len(ops)-1].K == "fin"
 	}
 	return false
+}
+
+// rawDecoderPayload: a first client message of the kind the raw listener's decoder for that port looks at,
+// sometimes cut short or with lying length fields.  nil for ports without a decoder.
+func rawDecoderPayload(r *Rng, dport int) []byte {
+	var b []byte
+	switch dport {
+	case 443:
+		// TLS record (handshake) with a ClientHello: version, random, session id, suites, compression, extensions
+		ver := []uint16{0x0300, 0x0301, 0x0302, 0x0303, 0x0304, 0x0002, 0x8001, 0x7f12}[r.Intn(8)]
+		body := []byte{byte(ver >> 8), byte(ver)}
+		body = append(body, r.Bytes(32)...)
+		sid := r.Bytes([]int{0, 32}[r.Intn(2)])
+		body = append(body, byte(len(sid)))
+		body = append(body, sid...)
+		ns := r.Range(1, 20)
+		body = append(body, byte(ns*2>>8), byte(ns*2))
+		body = append(body, r.Bytes(ns*2)...)
+		body = append(body, 1, 0)
+		ext := r.Bytes(r.Range(0, 200))
+		body = append(body, byte(len(ext)>>8), byte(len(ext)))
+		body = append(body, ext...)
+		hs := append([]byte{1, byte(len(body) >> 16), byte(len(body) >> 8), byte(len(body))}, body...)
+		ct := byte(0x16)
+		if r.Chance(0.15) {
+			ct = []byte{0x14, 0x15, 0x17, 0x80, 0x00}[r.Intn(5)]
+		}
+		b = append([]byte{ct, 3, byte(r.Intn(4)), byte(len(hs) >> 8), byte(len(hs))}, hs...)
+	case 445, 139:
+		magic := [][]byte{{0xfe, 'S', 'M', 'B'}, {0xff, 'S', 'M', 'B'}, {0xfd, 'S', 'M', 'B'}}[r.Intn(3)]
+		hdr := append([]byte(nil), magic...)
+		hdr = append(hdr, 64, 0, 0, 0)           // structure size, credit charge
+		hdr = append(hdr, r.Bytes(4)...)         // status
+		hdr = append(hdr, byte(r.Intn(0x14)), 0) // opcode
+		hdr = append(hdr, r.Bytes(r.Range(0, 120))...)
+		if r.Chance(0.6) {
+			// NetBIOS session service framing in front (what really arrives on 445/139)
+			hdr = append([]byte{0, 0, byte(len(hdr) >> 8), byte(len(hdr))}, hdr...)
+		}
+		if dport == 139 && r.Chance(0.5) {
+			hdr = append([]byte{0x81, 0, 0, 68}, r.Bytes(68)...) // session request
+		}
+		b = hdr
+	case 1433:
+		// TDS pre-login
+		pl := r.Bytes(r.Range(0, 80))
+		n := 8 + len(pl)
+		b = append([]byte{0x12, 1, byte(n >> 8), byte(n), 0, 0, byte(r.Intn(3)), 0}, pl...)
+	case 23:
+		b = append([]byte{0xff, 0xfd, 0x18, 0xff, 0xfb, 0x1f}, []byte("root\r\n"+r.word(0, 12)+"\r\n")...)
+	case 6379:
+		b = []byte("*2\r\n$3\r\nGET\r\n$" + fmt.Sprint(r.Range(0, 9)) + "\r\n" + r.word(0, 9) + "\r\n")
+	default:
+		return nil
+	}
+	switch r.Intn(6) {
+	case 0: // cut short anywhere
+		if len(b) > 1 {
+			b = b[:r.Range(1, len(b)-1)]
+		}
+	case 1: // one byte flipped
+		b[r.Intn(len(b))] ^= byte(1 << uint(r.Intn(8)))
+	}
+	return b
 }
